@@ -200,6 +200,32 @@ def run_case(case):
                 # flows they drive, to 1e-9 of the model's scale
                 fpars = {n for n, f in P.framework.pars["function"].items() if isinstance(f, str)}
                 d1 = compare_tail(R, "ss", B, C, 0, exact=False, judge_beyond_first=True, rtol=1e-9, skip_pars=fpars, model_scale=True) if cont else []
+                if d1 and not d0:
+                    # is that what the model does to *any* state that differs in the 16th digit?  Restart once more from the saved
+                    # state moved by one unit in the last place and measure how far that run drifts from the direct restart
+                    ps3 = sc.dcp(ps2)
+                    ps3.initialization.values = {k_: np.nextafter(np.asarray(v_, dtype=float), np.inf) if not np.isscalar(v_) else float(np.nextafter(v_, np.inf)) for k_, v_ in ps3.initialization.values.items()}
+                    r3 = P.run_sim(ps3, progset=pset, progset_instructions=instr)
+                    D = digest.result_arrays(r3)
+
+                    def drift(X):
+                        worst = 0.0
+                        floor_ = max([1.0] + [float(np.nanmax(np.abs(np.where(np.isfinite(v), v, 0.0)))) for kk, v in B.items() if kk[0] in ("comp", "link") and v.size])
+                        for kk, v in B.items():
+                            if kk[0] in ("comp", "link", "bins", "charac") and kk in X and X[kk].shape == v.shape:
+                                with np.errstate(all="ignore"):
+                                    e_ = np.abs(X[kk] - v) / np.maximum(floor_, np.maximum(np.abs(X[kk]), np.abs(v)))
+                                if e_.size and np.isfinite(e_).any():
+                                    worst = max(worst, float(np.nanmax(e_)))
+                        return worst
+
+                    d_ss, d_ulp = drift(C), drift(D)
+                    R.count("spreadsheet_restarts_judged_against_the_models_own_sensitivity")
+                    if d_ss <= 100.0 * d_ulp:
+                        R.count("spreadsheet_restart_drift_within_the_drift_of_a_one_ulp_change")
+                        d1 = []
+                    else:
+                        d1 = d1 + [("drift", None, d_ss, d_ulp)]
                 if d0:
                     R.bad("spreadsheet-restart", "C10:spreadsheet-restart-initial-state-differs[%s]" % str(d0[0][0][0]), {"first_differences": [list(map(str, d)) for d in d0[:4]]})
                 elif d1:
